@@ -4,7 +4,7 @@
 usage: try_seed.py <tag> [--no-suite] [--tier quick] <check ids...>
   * /tmp/seeds_out/<tag>/{patch.diff,demo.py,notes.md} produced by a sub-agent, worktree /tmp/wt_<tag> (patched)
   * confirms: demo FAILs on the patched worktree, PASSes on /repo HEAD; the stable baseline tests still pass with the patch
-  * applies the patch to /repo, runs the checks, ALWAYS reverts (git checkout -- .)
+  * applies the patch to a fresh scratch worktree of /repo HEAD and runs the checks against it (VERIF_REPO=<worktree>), then removes it
   * stores everything under /verif/seeded/<tag>/ with meta.json
 """
 import json
@@ -43,45 +43,46 @@ def main():
             shutil.copy(os.path.join(src, name), os.path.join(dest, name))
     meta_path = os.path.join(dest, 'meta.json')
     meta = json.load(open(meta_path)) if os.path.exists(meta_path) else {'id': tag, 'property': tag[:3]}
-    assert sh('git -C /repo status --porcelain').stdout.strip() == '', '/repo not clean'
     ran = meta.setdefault('ran', {})
-    # 1. demo on clean /repo
-    r = sh(f'PYTHONPATH=/repo /venv/bin/python {dest}/demo.py', cwd='/tmp')
-    ran['demo_clean'] = {'exit': r.returncode, 'tail': (r.stdout + r.stderr)[-300:]}
-    print('demo on clean tree: exit', r.returncode)
-    # 2. patch applies; demo on patched /repo
-    r = sh(f'git -C /repo apply --check {dest}/patch.diff')
-    if r.returncode != 0:
-        print('PATCH DOES NOT APPLY', r.stderr)
-        ran['applies'] = False
-        json.dump(meta, open(meta_path, 'w'), indent=1)
-        return 1
-    ran['applies'] = True
+    tree = f'/tmp/st_{tag}'
+    sh(f'git -C /repo worktree remove --force {tree}')
+    r = sh(f'git -C /repo worktree add -q --detach {tree} HEAD')
+    assert r.returncode == 0, r.stderr
+    meta['repo_head'] = sh('git -C /repo rev-parse --short HEAD').stdout.strip()
     try:
-        sh(f'git -C /repo apply {dest}/patch.diff')
-        r = sh(f'PYTHONPATH=/repo /venv/bin/python {dest}/demo.py', cwd='/tmp')
+        # 1. demo on the clean tree
+        r = sh(f'PYTHONPATH={tree} /venv/bin/python {dest}/demo.py', cwd='/tmp')
+        ran['demo_clean'] = {'exit': r.returncode, 'tail': (r.stdout + r.stderr)[-300:]}
+        print('demo on clean tree: exit', r.returncode)
+        # 2. patch applies; demo on the patched tree
+        r = sh(f'git -C {tree} apply {dest}/patch.diff')
+        ran['applies'] = r.returncode == 0
+        if r.returncode != 0:
+            print('PATCH DOES NOT APPLY', r.stderr)
+            json.dump(meta, open(meta_path, 'w'), indent=1)
+            return 1
+        r = sh(f'PYTHONPATH={tree} /venv/bin/python {dest}/demo.py', cwd='/tmp')
         ran['demo_patched'] = {'exit': r.returncode, 'tail': (r.stdout + r.stderr)[-600:]}
         print('demo on patched tree: exit', r.returncode)
         if suite:
             t0 = time.time()
-            r = sh('/venv/bin/python -m pytest -q -p no:cacheprovider --timeout=900 --continue-on-collection-errors -n 10 '
-                   f'--junitxml=/tmp/seed_{tag}.xml', cwd='/repo')
+            r = sh(f'PYTHONPATH={tree} /venv/bin/python -m pytest -q -p no:cacheprovider --timeout=900 --continue-on-collection-errors -n 10 '
+                   f'--junitxml=/tmp/seed_{tag}.xml', cwd=tree)
             r2 = sh(f'python3 {VERIF}/tools/compare_baseline.py /tmp/seed_{tag}.xml')
             ran['suite'] = {'summary': r.stdout.strip().splitlines()[-1] if r.stdout.strip() else '', 'baseline': r2.stdout.strip(),
                             'ok': r2.returncode == 0, 'wall_s': round(time.time() - t0)}
             print('suite with patch:', ran['suite']['summary'], '|', r2.stdout.strip().splitlines()[0])
-            sh('git -C /repo clean -fdq -- . ; true')
         results = meta.setdefault('checks', {})
         for check in checks:
             t0 = time.time()
-            r = sh(f'/venv/bin/python {VERIF}/check.py {check} --tier {tier}', cwd=VERIF)
+            # equivalent to `git -C /repo apply patch; check; git -C /repo checkout -- .`, without touching /repo
+            r = sh(f'VERIF_REPO={tree} /venv/bin/python {VERIF}/check.py {check} --tier {tier}', cwd=VERIF)
             viol = [l for l in r.stdout.splitlines() if l.startswith('VIOLATION')]
-            sigs = [l.strip() for l in r.stdout.splitlines() if l.startswith('  ')][:3]
+            sigs = [l.strip()[:400] for l in r.stdout.splitlines() if l.startswith('  ')][:3]
             results[f'{check}:{tier}'] = {'exit': r.returncode, 'violations': len(viol), 'first': sigs, 'wall_s': round(time.time() - t0)}
-            print(f'{check} ({tier}): exit {r.returncode}, {len(viol)} violations', sigs[:1])
+            print(f'{check} ({tier}): exit {r.returncode}, {len(viol)} violations', [x[:200] for x in sigs[:1]])
     finally:
-        sh('git -C /repo checkout -- .')
-        assert sh('git -C /repo status --porcelain').stdout.strip() == '', '/repo not clean after revert'
+        sh(f'git -C /repo worktree remove --force {tree}')
     json.dump(meta, open(meta_path, 'w'), indent=1)
     return 0
 
